@@ -235,6 +235,7 @@ func generate(prop, tier string, seed uint64, jl *jobList) int {
 		genWaitCancelRuns(r, leafKinds(), jl.addFlow)
 		genBatchRetry(r, thorough, jl.addFlow)
 	case "C03":
+		genZeroSizeNodes(r, jl.addFlow)
 		genSelfNest(r, jl.addFlow)
 		genC03(r, thorough, jl.addFlow)
 	case "C04":
@@ -253,6 +254,7 @@ func generate(prop, tier string, seed uint64, jl *jobList) int {
 	case "batchflow":
 		genBatchFlow(r, thorough, jl.addFlow)
 	case "C10":
+		genSubFlowLoop(r, thorough, jl.addFlow)
 		genSelfNest(r, jl.addFlow)
 		genC10(r, thorough, jl.addFlow)
 	case "C16":
